@@ -501,3 +501,78 @@ theorem recOk_map (f : Nat → Nat) (L : Nat) (hf : ∀ a b, a < L → b < L →
       exact ih (max R x) x (by omega) hxL (fun y hy => hx y (List.mem_cons_of_mem _ hy)) h.2
 
 end TantivyModel.Snip
+
+namespace TantivyModel.Snip
+open TantivyModel.Tok
+
+/-- a fragment is within the limit or is spanned by a single token of the stream (the token that
+opened it): the exact shape of the S7 finding -/
+def P8 (all : List STok) (M : Nat) (s : Text) (f : Frag) (ts : List STok) : Prop :=
+  P1 s f ts ∧ (∀ t ∈ ts, t ∈ all) ∧
+  (f.stop - f.start ≤ M ∨ ∃ t ∈ all, t.from_ = f.start ∧ t.to = f.stop)
+
+theorem search_P8 (mode : Nat) (s : Text) (M : Nat) (ts : List STok) (h : SContract s ts) :
+    ∃ frags, searchFragments mode M ts = some frags ∧
+      ∀ g ∈ frags, FI s g ∧
+        (g.stop - g.start ≤ M ∨ ∃ t ∈ ts, t.from_ = g.start ∧ t.to = g.stop) := by
+  obtain ⟨frags, e, hf⟩ := searchAux_inv mode M (P8 ts M s) (fun f t r h => P1_safe s f t r h.1)
+    (fun f t r h hc => by
+      obtain ⟨h1, h2, h3⟩ := h
+      refine ⟨P1_add mode s f t r h1, fun x hx => h2 x (List.mem_cons_of_mem _ hx), ?_⟩
+      rw [add_start, add_stop]
+      have hsafe := P1_safe s f t r h1
+      rcases stopAfter_cases mode f.stop t.to with e | ⟨e, hle⟩
+      · left; rw [e]; omega
+      · rw [e]; exact h3)
+    (fun f t r h hc => by
+      obtain ⟨h1, h2, _⟩ := h
+      have ht := (h1.2.1.inb t List.mem_cons_self).1
+      refine ⟨P1_cut mode s f t r h1, fun x hx => h2 x (List.mem_cons_of_mem _ hx), ?_⟩
+      right
+      refine ⟨t, h2 t List.mem_cons_self, ?_, ?_⟩
+      · rw [add_start]; rfl
+      · rw [add_stop_cut mode t ht])
+    ts (Frag.new 0) ⟨P1_init s ts h, fun _ h => h, by left; simp [Frag.new]⟩
+  exact ⟨frags, e, fun g hg => by obtain ⟨_, h⟩ := hf g hg; exact ⟨h.1.1, h.2.2⟩⟩
+
+end TantivyModel.Snip
+
+namespace TantivyModel.Snip
+open TantivyModel.Tok
+
+/-- the raw highlights are always ordered by their start (the unconditional part of "sorted") -/
+def P9 (s : Text) (f : Frag) (ts : List STok) : Prop :=
+  P1 s f ts ∧ f.hl.Pairwise (fun a b => a.1 ≤ b.1) ∧ (∀ h ∈ f.hl, ∀ t ∈ ts, h.1 ≤ t.from_)
+
+theorem P9_step (mode : Nat) (s : Text) (g f : Frag) (t : STok) (ts : List STok)
+    (h : P9 s f (t :: ts))
+    (hg1 : g.hl.Pairwise (fun a b => a.1 ≤ b.1)) (hg2 : ∀ h ∈ g.hl, ∀ t' ∈ t :: ts, h.1 ≤ t'.from_)
+    (h1 : P1 s (g.add mode t) ts) : P9 s (g.add mode t) ts := by
+  have hmono := (List.pairwise_cons.mp h.1.2.1.mono).1
+  refine ⟨h1, ?_, ?_⟩
+  · rw [add_hl_eq, List.pairwise_append]
+    refine ⟨hg1, by split <;> simp, ?_⟩
+    intro a ha b hb
+    split at hb
+    · simp only [List.mem_singleton] at hb; subst hb
+      exact hg2 a ha t List.mem_cons_self
+    · simp at hb
+  · intro x hx t' ht'
+    rw [add_hl_eq, List.mem_append] at hx
+    rcases hx with hx | hx
+    · exact hg2 x hx t' (List.mem_cons_of_mem _ ht')
+    · split at hx
+      · simp only [List.mem_singleton] at hx; subst hx; exact hmono t' ht'
+      · simp at hx
+
+theorem search_P9 (mode : Nat) (s : Text) (M : Nat) (ts : List STok) (h : SContract s ts) :
+    ∃ frags, searchFragments mode M ts = some frags ∧
+      ∀ g ∈ frags, FI s g ∧ g.hl.Pairwise (fun a b => a.1 ≤ b.1) := by
+  obtain ⟨frags, e, hf⟩ := searchAux_inv mode M (P9 s) (fun f t r h => P1_safe s f t r h.1)
+    (fun f t r h _ => P9_step mode s f f t r h h.2.1 h.2.2 (P1_add mode s f t r h.1))
+    (fun f t r h _ => P9_step mode s (Frag.new t.from_) f t r h (by simp [Frag.new]) (by simp [Frag.new])
+      (P1_cut mode s f t r h.1))
+    ts (Frag.new 0) ⟨P1_init s ts h, by simp [Frag.new], by simp [Frag.new]⟩
+  exact ⟨frags, e, fun g hg => by obtain ⟨_, h⟩ := hf g hg; exact ⟨h.1.1, h.2.1⟩⟩
+
+end TantivyModel.Snip
